@@ -878,15 +878,17 @@ func c17nodeReturns(c *runner.Ctx, i int) {
 			settled = false
 			break
 		}
-		// stable surplus: more connections than the pool may hold, seen three times 20 ms apart
+		// stable surplus: more connections than the pool may hold, seen ten times in a row over half a second (the
+		// connections of the pool that was removed may take a moment to close)
 		over := 0
-		for k := 0; k < 3; k++ {
-			if n.DataConnsOpen() > cfg.NumConns {
-				over++
-				time.Sleep(20 * time.Millisecond)
+		for k := 0; k < 10; k++ {
+			if n.DataConnsOpen() <= cfg.NumConns {
+				break
 			}
+			over++
+			time.Sleep(50 * time.Millisecond)
 		}
-		if over == 3 {
+		if over == 10 {
 			wit["round"] = round
 			c.Violation("C17:more-connections-than-pool-size", fmt.Sprintf("node %s holds %d data connections of this session, NumConns is %d (after the node came back and %s)", n.IP, n.DataConnsOpen(), cfg.NumConns, "several triggers asked for its pool at once"), wit)
 			break
